@@ -55,6 +55,8 @@ func Litmus(ctx *engine.Ctx) {
 
 // Check explores every unordered pair of cases (including a case with itself).
 func Check(ctx *engine.Ctx, family string, cases []Case) {
+	ctx.DisturbOff()
+	defer ctx.DisturbOn()
 	alone := make([]string, len(cases))
 	for i, c := range cases {
 		alone[i] = c.Run()
